@@ -304,4 +304,56 @@ def negResTy : ITy → ResTy
   | .u32 => .i32
   | .u64 => .i64
 
+
+/-! ## Regions: defect classes of the unchanged code, decided on the case
+
+Each is a value/feature class; `Gms/Props/C25.lean` proves that outside them the Impl model is
+acceptable, and that each contains a concrete failing point. -/
+
+/-- `+ - *`: the exact result leaves the range of the declared result type (BIGINT, or BIGINT
+UNSIGNED when both operands are unsigned): Go's 64-bit operator wraps silently. -/
+def bigint_overflow_wraps (op : AOp) (lt : ITy) (lv : Int) (rt : ITy) (rv : Int) : Prop :=
+  arithResOk lt rt (op.exact lv rv) = false
+
+/-- `+ - *` with operands of mixed signedness where the BIGINT UNSIGNED operand exceeds
+`MaxInt64`: it is clamped to `MaxInt64` by the conversion to the BIGINT result type. -/
+def unsigned_operand_clamped (lt : ITy) (lv : Int) (rt : ITy) (rv : Int) : Prop :=
+  arithUnsigned lt rt = false ∧ ((lt = .u64 ∧ lv > maxI64) ∨ (rt = .u64 ∧ rv > maxI64))
+
+/-- `MinInt64 DIV -1` on two signed operands wraps to `MinInt64`. -/
+def intdiv_minint_by_minus1 (lt : ITy) (lv : Int) (rt : ITy) (rv : Int) : Prop :=
+  lt.unsigned = false ∧ rt.unsigned = false ∧ lv = minI64 ∧ rv = -1
+
+/-- `DIV` with operands of mixed signedness and a negative quotient: the `int64` quotient is
+rendered through the declared BIGINT UNSIGNED type and wraps to `2^64 + q`. -/
+def intdiv_mixed_negative_as_unsigned (lt : ITy) (lv : Int) (rt : ITy) (rv : Int) : Prop :=
+  lt.unsigned ≠ rt.unsigned ∧ rv ≠ 0 ∧ Int.tdiv lv rv < 0 ∧ minI64 ≤ Int.tdiv lv rv
+
+/-- unary minus on an unsigned column: `-int8(n)`, `-int16(n)` (rendered as unsigned: every
+non-zero value), `-int32(n)` on MEDIUMINT UNSIGNED (rendered as unsigned), on INT UNSIGNED above
+`2^31` and `-int64(n)` on BIGINT UNSIGNED above `2^63` wrap. -/
+def neg_unsigned_wraps (t : ITy) (v : Int) : Prop :=
+  match t with
+  | .u8 | .u16 | .u24 => v ≠ 0
+  | .u32 => v > 2 ^ 31
+  | .u64 => v > 2 ^ 63
+  | _ => False
+
+/-- unary minus on MEDIUMINT `-8388608`: the exact `8388608` is clamped to `8388607` by the
+declared MEDIUMINT result type. -/
+def neg_mediumint_min_clamped (t : ITy) (v : Int) : Prop := t = .i24 ∧ v = -(2 ^ 23)
+
+instance (op lt lv rt rv) : Decidable (bigint_overflow_wraps op lt lv rt rv) := by
+  unfold bigint_overflow_wraps; infer_instance
+instance (lt lv rt rv) : Decidable (unsigned_operand_clamped lt lv rt rv) := by
+  unfold unsigned_operand_clamped; infer_instance
+instance (lt lv rt rv) : Decidable (intdiv_minint_by_minus1 lt lv rt rv) := by
+  unfold intdiv_minint_by_minus1; infer_instance
+instance (lt lv rt rv) : Decidable (intdiv_mixed_negative_as_unsigned lt lv rt rv) := by
+  unfold intdiv_mixed_negative_as_unsigned; infer_instance
+instance (t v) : Decidable (neg_unsigned_wraps t v) := by
+  unfold neg_unsigned_wraps; cases t <;> infer_instance
+instance (t v) : Decidable (neg_mediumint_min_clamped t v) := by
+  unfold neg_mediumint_min_clamped; infer_instance
+
 end Gms.Num
